@@ -44,7 +44,15 @@ fn call(rule: &Value, data: &Value) -> (String, String) {
 /// comparisons through to_string, numeric folds) where the node-level scheduler of E1 cannot preempt.
 fn leaf_heavy(rng: &mut prng::Rng, variant: u64) -> Value {
     let arr = |rng: &mut prng::Rng| Value::Array((0..rng.range(2, 4)).map(|_| gen::atom(rng)).collect());
-    match variant % 12 {
+    match variant % 20 {
+        12 => json!({"max": [arr(rng), {"var": "a"}, 3, gen::atom(rng)]}),
+        13 => json!({"-": [{"var": "b"}, gen::atom(rng)]}),
+        14 => json!({"<": [gen::atom(rng), {"var": "p.y"}, gen::atom(rng)]}),
+        15 => json!({"%": [gen::atom(rng), {"var": "o.x"}]}),
+        16 => json!({"!==": [{"var": "a"}, gen::atom(rng)]}),
+        17 => json!({"missing_some": [1, ["o.x", "p.z", "a"]]}),
+        18 => json!({"*": [{"var": "p.y"}, "3px", gen::atom(rng)]}),
+        19 => json!({"if": [{">=": [{"var": "a"}, gen::atom(rng)]}, {"min": [1, {"var": "b"}]}, {"/": [{"var": "p.y"}, 2]}]}),
         9 => json!({"cat": [{"var": "o.x"}, {"var": "o.x"}, {"var": "o.x"}, {"var": "o.x"}]}),
         10 => json!({"+": [{"var": "p.y"}, {"var": "p.y"}, {"var": "p.y"}, {"var": "o.x"}]}),
         11 => json!({"missing": ["o.x", "p.y", "o.z", "p.y", "q.w.e", "o.x"]}),
@@ -60,6 +68,39 @@ fn leaf_heavy(rng: &mut prng::Rng, variant: u64) -> Value {
     }
 }
 
+/// The shared pool of a workload: three leaf-heavy rules (variants cycled by the workload seed), one
+/// rule evaluated against two documents that differ only in a short string (the same operator fed
+/// different operands by different threads at the same time), and one generated rule.
+fn build_pool(seed: u64) -> Vec<(Value, Value)> {
+    let mut rng = prng::Rng::new(prng::mix(seed, &[3, 3]));
+    let mut pool: Vec<(Value, Value)> = Vec::new();
+    let doc = |rng: &mut prng::Rng| json!({"a": gen::atom(rng), "b": gen::atom(rng), "c": [gen::atom(rng), "s", 3, gen::atom(rng)], "o": {"x": 1}, "p": {"y": 2}});
+    for i in 0..3u64 {
+        let rule = leaf_heavy(&mut rng, seed * 3 + i);
+        let data = doc(&mut rng);
+        pool.push((rule, data));
+    }
+    let paired = match seed % 8 {
+        0 => json!({"+": [{"var": "q"}, 0]}),
+        1 => json!({"*": [{"var": "q"}, 2, {"var": "q"}]}),
+        2 => json!({"<": [{"var": "q"}, "5", {"var": "r"}]}),
+        3 => json!({"cat": [{"var": "q"}, {"var": "r"}, {"var": "q"}]}),
+        4 => json!({"max": [{"var": "q"}, {"var": "r"}, 1]}),
+        5 => json!({"==": [{"var": "q"}, 17]}),
+        6 => json!({"-": [{"var": "q"}, {"var": "r"}]}),
+        _ => json!({"in": [{"var": "q"}, "x17y42z"]}),
+    };
+    let shorts = ["17", "42", "3px", "1e3", " 7", "0.5", "-1", "08"];
+    let q1 = shorts[(seed as usize) % shorts.len()];
+    let q2 = shorts[(seed as usize + 1 + (seed as usize / 8) % 6) % shorts.len()];
+    pool.push((paired.clone(), json!({"q": q1, "r": q2})));
+    pool.push((paired, json!({"q": q2, "r": q1})));
+    let rule = gen::rule(&mut rng, 2);
+    let data = doc(&mut rng);
+    pool.push((rule, data));
+    pool
+}
+
 fn main() {
     let args: Vec<String> = std::env::args().collect();
     let seed: u64 = args.get(1).and_then(|s| s.parse().ok()).unwrap_or(1);
@@ -69,14 +110,9 @@ fn main() {
     std::panic::set_hook(Box::new(|_| {}));
 
     let mut rng = prng::Rng::new(prng::mix(seed, &[3, 3]));
-    let k = 4;
-    let mut pool: Vec<(Value, Value)> = Vec::new();
-    for i in 0..k {
-        // the leaf-heavy variants are cycled through by the workload seed, so a handful of workloads covers them all
-        let rule = if i < 3 { leaf_heavy(&mut rng, seed * 3 + i as u64) } else { gen::rule(&mut rng, 2) };
-        let data = json!({"a": gen::atom(&mut rng), "b": gen::atom(&mut rng), "c": [gen::atom(&mut rng), "s", 3, gen::atom(&mut rng)], "o": {"x": 1}, "p": {"y": 2}});
-        pool.push((rule, data));
-    }
+    let pool = build_pool(seed);
+    let k = pool.len();
+    let _ = &mut rng;
     // expected outcomes, computed before any other thread exists
     let expected: Vec<(String, String)> = pool.iter().map(|(r, d)| call(r, d)).collect();
     let pool = Arc::new(pool);
@@ -114,11 +150,9 @@ fn main() {
         }
     }
     // inputs unchanged
-    let mut rng2 = prng::Rng::new(prng::mix(seed, &[3, 3]));
+    let again = build_pool(seed);
     for i in 0..k {
-        let rule = if i < 3 { leaf_heavy(&mut rng2, seed * 3 + i as u64) } else { gen::rule(&mut rng2, 2) };
-        let data = json!({"a": gen::atom(&mut rng2), "b": gen::atom(&mut rng2), "c": [gen::atom(&mut rng2), "s", 3, gen::atom(&mut rng2)], "o": {"x": 1}, "p": {"y": 2}});
-        if rule != pool[i].0 || data != pool[i].1 {
+        if again[i].0 != pool[i].0 || again[i].1 != pool[i].1 {
             println!("MISMATCH input {} was modified", i);
             failed = true;
         }
